@@ -106,6 +106,12 @@ impl TimeStrategy {
         self.started_at.elapsed()
     }
 
+    /// Verification hook: the computed (soft, hard) limits.
+    #[cfg(jgilchrist_tcheran_verif)]
+    pub fn verif_limits(&self) -> (Duration, Duration) {
+        (self.soft_stop, self.hard_stop)
+    }
+
     pub fn should_start_new_search(&self, depth: u8) -> bool {
         if depth == 1 {
             return true;
@@ -123,6 +129,12 @@ impl TimeStrategy {
     }
 
     pub fn should_stop(&mut self, nodes_visited: u64) -> bool {
+        // Verification hook: optionally consult the stop flag at every node.
+        #[cfg(jgilchrist_tcheran_verif)]
+        if verif::EVERY_NODE.load(Ordering::Relaxed) && self.is_force_stopped() {
+            return true;
+        }
+
         if nodes_visited < self.next_check_at {
             return false;
         }
@@ -141,6 +153,36 @@ impl TimeStrategy {
     }
 
     fn is_force_stopped(&self) -> bool {
+        // Verification hook: the flag reads true from the k-th consultation on.
+        #[cfg(jgilchrist_tcheran_verif)]
+        if verif::poll() {
+            return true;
+        }
+
         self.force_stop.load(Ordering::Relaxed)
+    }
+}
+
+/// Verification hooks (compiled only with `--cfg jgilchrist_tcheran_verif`): a countdown consulted
+/// where the stop flag is loaded, and a switch that makes every node a polling point.
+#[cfg(jgilchrist_tcheran_verif)]
+pub mod verif {
+    use std::sync::atomic::{AtomicBool, AtomicU64, Ordering};
+
+    /// 0 = disabled; k > 0 = the flag reads true from the k-th consultation on.
+    pub static STOP_AT_POLL: AtomicU64 = AtomicU64::new(0);
+    pub static POLLS: AtomicU64 = AtomicU64::new(0);
+    pub static EVERY_NODE: AtomicBool = AtomicBool::new(false);
+
+    pub fn poll() -> bool {
+        let n = POLLS.fetch_add(1, Ordering::Relaxed) + 1;
+        let k = STOP_AT_POLL.load(Ordering::Relaxed);
+        k != 0 && n >= k
+    }
+
+    pub fn reset(stop_at_poll: u64, every_node: bool) {
+        POLLS.store(0, Ordering::Relaxed);
+        STOP_AT_POLL.store(stop_at_poll, Ordering::Relaxed);
+        EVERY_NODE.store(every_node, Ordering::Relaxed);
     }
 }
